@@ -149,3 +149,7 @@ package pool
 //@   trusted
 //@   requires r != nil
 //@   modifies r.sequence
+//
+//@ func (*Message) Context() (c context.Context)
+//@   trusted
+//@   requires r != nil
